@@ -808,3 +808,173 @@ pub fn stress_inputs(e: &EFmt, rng: &mut Rng, depth: usize) -> Vec<String> {
     // every prefix of a typical task
     out
 }
+
+// ---------------------------------------------------------------------------------------------
+// rejected atoms / rejected number lists with long multi-byte payloads
+// ---------------------------------------------------------------------------------------------
+/// Atom names whose UTF-8 layout puts a character boundary at EVERY byte offset modulo the character width, from the
+/// start and from the end of the name: a run of one character of 1, 2, 3 or 4 bytes, of every total length in `lens`
+/// (in chars), preceded by 0..width ASCII digits or followed by 0..width ASCII digits.  Any byte-indexed cut of the
+/// name (`&s[..n]`, `&s[s.len() - n..]`, `String::truncate(n)`) lands inside a character for one of them as soon as
+/// the name is longer than `n` bytes.  The 1-byte runs are the over-long numbers (`999..9`, rejected by intervals from
+/// 20 digits on) and the plain non-numeric names.
+pub fn payload_names(lens: &[usize]) -> Vec<String> {
+    let mut out = vec![];
+    for (w, ch) in [(1usize, '9'), (1, 'a'), (2, 'é'), (3, '秒'), (4, '🦀')] {
+        let mut shapes: Vec<(usize, usize)> = (0..w).map(|k| (k, 0)).collect();
+        shapes.extend((1..w).map(|k| (0, k)));
+        for (lead, trail) in shapes {
+            for &len in lens {
+                if len <= lead + trail {
+                    continue;
+                }
+                let mut s: String = "1234"[..lead].to_string();
+                for _ in 0..len - lead - trail {
+                    s.push(ch);
+                }
+                s.push_str(&"5678"[..trail]);
+                out.push(s);
+            }
+        }
+    }
+    out
+}
+
+/// the seven atom prefixes of a format (the word prefix included)
+pub fn all_atom_prefixes(e: &EFmt) -> Vec<&'static str> {
+    let a = &e.atom;
+    vec![a.prefix_word, a.prefix_placeholder, a.prefix_variable_independent, a.prefix_variable_dependent, a.prefix_variable_query, a.prefix_interval, a.prefix_operator]
+}
+
+/// `atom` as a component: of a product, of a set, subject / predicate of a statement, inside a nested compound
+pub fn nest_atom(e: &EFmt, atom: &str, how: usize) -> String {
+    let c = &e.compound;
+    let st = &e.statement;
+    let sp = e.space.format_terms;
+    match how % 5 {
+        0 => format!("{}{}{} A{} {}{}", c.brackets.0, c.connecter_product, c.separator, c.separator, atom, c.brackets.1),
+        1 => format!("{}{} {} B{}", st.brackets.0, atom, st.copula_inheritance, st.brackets.1),
+        2 => format!("{}{}{}", c.brackets_set_extension.0, atom, c.brackets_set_extension.1),
+        3 => format!("{}A {}{}{}{}", st.brackets.0, st.copula_similarity, sp, atom, st.brackets.1),
+        _ => format!("{}{}{} {}{}{}{}{}", c.brackets.0, c.connecter_negation, c.separator, c.brackets_set_intension.0, atom, c.brackets_set_intension.1, c.brackets.1, e.sentence.punctuation_judgement),
+    }
+}
+
+/// Texts whose atoms are REJECTED or merely long: every atom prefix of the format x `payload_names` (every length 1..40
+/// for the interval prefix -- the one prefix whose names can be rejected: non-numeric, over-long numbers -- and a
+/// ladder of lengths for the other prefixes), bare and as a component.  `.1` tells whether the prefix is the interval's.
+pub fn rejected_atom_inputs(e: &EFmt) -> Vec<(String, bool)> {
+    let all: Vec<usize> = (1..=40).collect();
+    let ladder = [1usize, 2, 3, 5, 6, 7, 8, 11, 16, 22, 32, 40];
+    let mut out = vec![];
+    for p in all_atom_prefixes(e) {
+        let interval = p == e.atom.prefix_interval;
+        let names = payload_names(if interval { &all } else { &ladder });
+        for (i, name) in names.iter().enumerate() {
+            let atom = format!("{}{}", p, name);
+            out.push((nest_atom(e, &atom, i), interval));
+            out.push((atom, interval));
+        }
+    }
+    out
+}
+
+/// which stand-alone parser an item text is for
+#[derive(Clone, Copy, PartialEq, Eq, Debug)]
+pub enum ItemKind {
+    Truth,
+    Budget,
+    Stamp,
+}
+
+/// Truth / budget / fixed-stamp items whose number list is REJECTED or over-long, with payloads of many lengths:
+/// buffers that are not numbers (`1.1.1.`, `....`, `+-+-`, `--`), over-long digit runs, and multi-byte characters
+/// directly after a partial number, in the first / last slot of the list.  (The error messages echo the buffer or the
+/// offending character.)
+pub fn rejected_number_items(e: &EFmt) -> Vec<(ItemKind, String)> {
+    let (tl, tr, ts) = (e.sentence.truth_brackets.0, e.sentence.truth_brackets.1, e.sentence.truth_separator);
+    let (bl, br, bs) = (e.task.budget_brackets.0, e.task.budget_brackets.1, e.task.budget_separator);
+    let (sl, sr) = e.sentence.stamp_brackets;
+    let fixed = e.sentence.stamp_fixed;
+    let lens = [1usize, 2, 7, 8, 19, 20, 21, 22, 40];
+    let rep = |unit: &str, len: usize| -> String { unit.chars().cycle().take(len).collect() };
+    let mut out = vec![];
+    for &len in &lens {
+        let mut floats: Vec<String> = vec![rep("1.", len), rep(".", len), rep("9", len), rep("0", len), format!("0.{}", rep("9", len))];
+        let mut ints: Vec<String> = vec![rep("+-", len), rep("-", len), rep("9", len), format!("-{}", rep("9", len)), format!("+{}", rep("0", len)), rep("9-", len)];
+        for ch in ['é', '秒', '🦀'] {
+            for lead in 0..3usize {
+                if len > lead {
+                    let s = format!("{}{}", &"123"[..lead], rep(&ch.to_string(), len - lead));
+                    floats.push(s.clone());
+                    ints.push(s);
+                }
+            }
+        }
+        for p in &floats {
+            out.push((ItemKind::Truth, format!("{tl}{p}{ts}0.5{tr}")));
+            out.push((ItemKind::Truth, format!("{tl}0.5{ts}{p}{tr}")));
+            out.push((ItemKind::Truth, format!("{tl}{p}{tr}")));
+            out.push((ItemKind::Budget, format!("{bl}{p}{bs}0.5{br}")));
+            out.push((ItemKind::Budget, format!("{bl}0.5{bs}0.5{bs}{p}{br}")));
+            out.push((ItemKind::Budget, format!("{bl}{p}")));
+        }
+        for p in &ints {
+            out.push((ItemKind::Stamp, format!("{sl}{fixed}{p}{sr}")));
+            out.push((ItemKind::Stamp, format!("{sl}{fixed} {p}")));
+        }
+    }
+    out
+}
+
+/// an item of `rejected_number_items` at its place in a judgement on `A`
+pub fn item_in_sentence(e: &EFmt, kind: ItemKind, item: &str) -> String {
+    let pj = e.sentence.punctuation_judgement;
+    match kind {
+        ItemKind::Budget => format!("{} A{}", item, pj),
+        _ => format!("A{} {}", pj, item),
+    }
+}
+
+// ---------------------------------------------------------------------------------------------
+// partial / complete / invalid inputs by the items present (histories of C08)
+// ---------------------------------------------------------------------------------------------
+/// every non-empty subset of {budget, term, punctuation, stamp, truth} written in the canonical order around `term`:
+/// complete tasks and sentences, PARTIAL inputs (a term followed by a truth / stamp but no punctuation, a budget and
+/// a term: they parse to the bare term and the other items are left over) and inputs without a term (errors)
+pub fn item_subset_inputs(e: &EFmt, term: &str, rng: &mut Rng) -> Vec<String> {
+    let mut out = vec![];
+    for mask in 1u32..32 {
+        let budget = if rng.chance(1, 2) { Budget::Empty } else { gen_budget(rng) };
+        let truth = match gen_truth(rng) {
+            Truth::Empty => Truth::Single(0.9),
+            t => t,
+        };
+        let stamp = match gen_stamp(rng) {
+            Stamp::Eternal => Stamp::Present,
+            s => s,
+        };
+        let punct = rng.pick(&[Punctuation::Judgement, Punctuation::Goal, Punctuation::Question, Punctuation::Quest]).clone();
+        let mut parts: Vec<String> = vec![];
+        if mask & 1 != 0 {
+            parts.push(e.format_budget(&budget));
+        }
+        if mask & 2 != 0 {
+            parts.push(term.to_string());
+        }
+        let mut s = parts.join(e.space.format_items);
+        if mask & 4 != 0 {
+            s.push_str(&e.format_punctuation(&punct));
+        }
+        for (bit, text) in [(8u32, e.format_stamp(&stamp)), (16, e.format_truth(&truth))] {
+            if mask & bit != 0 {
+                if !s.is_empty() {
+                    s.push_str(e.space.format_items);
+                }
+                s.push_str(&text);
+            }
+        }
+        out.push(s);
+    }
+    out
+}
